@@ -8,10 +8,13 @@ import (
 	"errors"
 	"fmt"
 	"runtime/debug"
+	"strings"
 
 	"github.com/goark/go-cvss/cvsserr"
 	m2 "github.com/goark/go-cvss/v2/metric"
 	m3 "github.com/goark/go-cvss/v3/metric"
+
+	"verif/harness/spec"
 )
 
 // Kind identifies one of the six decoders.
@@ -151,11 +154,118 @@ func Decode(k Kind, s string, nilRecv bool) (Obj, error, *Panic) {
 
 // Receiver modes for DecodeMode.
 const (
-	RecvFresh   = 0 // constructor result
-	RecvNil     = 1 // typed nil receiver
-	RecvQueried = 2 // constructor result whose query methods were all called before Decode
-	RecvCopy    = 3 // a by-value copy of a constructor result (the caller holds the decoder by value)
+	RecvFresh        = 0 // constructor result
+	RecvNil          = 1 // typed nil receiver
+	RecvQueried      = 2 // constructor result whose query methods were all called before Decode
+	RecvCopy         = 3 // a by-value copy of a constructor result (the caller holds the decoder by value)
+	RecvEmbedded     = 4 // the lower-level decoder embedded in a fresh higher-level constructor result (x.Base / x.Temporal / x.Temporal.Base)
+	RecvReplugged    = 5 // constructor result whose embedded part(s) were replaced by other fresh constructor results before Decode
+	RecvPreset       = 6 // constructor result whose exported fields named in the string (and Ver) were assigned other valid values before Decode
+	RecvNilAfterFail = 7 // typed nil receiver, right after another nil-receiver Decode of the same type that was rejected
+	NJudgedModes     = 8 // the modes above are equivalent to a fresh constructor result as far as every property is concerned
+	RecvScribbled    = 8 // constructor result whose exported fields were all overwritten (valid, invalid, out-of-range values) before Decode: only C12's shape claims are judged
 )
+
+// ModeNames describes the receiver modes (recorded in replay files).
+var ModeNames = []string{
+	"",
+	"nil receiver",
+	"constructor result queried before Decode",
+	"by-value copy of a constructor result",
+	"lower-level decoder embedded in a fresh higher-level constructor result",
+	"re-plugged: embedded parts replaced by other fresh constructor results before Decode",
+	"preset: exported fields named in the string (and Ver) assigned other valid values before Decode",
+	"nil receiver right after a rejected nil-receiver Decode of the same type",
+	"scribbled: every exported field overwritten before Decode",
+}
+
+// ModeByName is the inverse of ModeNames (RecvFresh when unknown).
+func ModeByName(n string) int {
+	for i, s := range ModeNames {
+		if s == n && i > 0 {
+			return i
+		}
+	}
+	if strings.HasPrefix(n, "by-value") {
+		return RecvCopy
+	}
+	return RecvFresh
+}
+
+func strHash(s string) uint32 {
+	h := uint32(2166136261)
+	for i := 0; i < len(s); i++ {
+		h = (h ^ uint32(s[i])) * 16777619
+	}
+	return h
+}
+
+// rejectedPrelude is a vector of kind k's level that every decoder rejects (no A metric) while carrying
+// non-default values for every optional metric of the level.
+func rejectedPrelude(k Kind, h uint32) string {
+	if k.V2() {
+		return []string{"AV:L/AC:H/Au:M/C:P/I:P", "AV:L/AC:H/Au:M/C:P/I:P/E:POC/RL:TF/RC:UR", "AV:L/AC:H/Au:M/C:P/I:P/E:POC/RL:TF/RC:UR/CDP:LM/TD:M/CR:L/IR:L/AR:L"}[k.Level()]
+	}
+	v := "CVSS:3.0"
+	if h&1 == 1 {
+		v = "CVSS:3.1"
+	}
+	return v + []string{"/AV:L/AC:H/PR:L/UI:R/S:C/C:L/I:L", "/AV:L/AC:H/PR:L/UI:R/S:C/C:L/I:L/E:P/RL:T/RC:U", "/AV:L/AC:H/PR:L/UI:R/S:C/C:L/I:L/E:P/RL:T/RC:U/CR:L/IR:L/AR:L/MAV:P/MAC:H/MPR:H/MUI:R/MS:C/MC:L/MI:L/MA:L"}[k.Level()]
+}
+
+// preset assigns, on a fresh constructor result, another valid value to every exported field whose
+// metric name occurs as a token name in s (a Decode that does not fail overwrites every one of them),
+// and the other supported version to Ver.
+func preset(recv Obj, s string) {
+	h := strHash(s + "#preset")
+	if !recv.Kind.V2() {
+		recv.SetVer([]int{int(m3.V3_0), int(m3.V3_1)}[h&1])
+	}
+	n := recv.NFields()
+	for _, tok := range strings.Split(s, "/") {
+		name, _, ok := strings.Cut(tok, ":")
+		if !ok {
+			continue
+		}
+		for i := 0; i < n; i++ {
+			h = h*1664525 + 1013904223
+			if recv.Kind.V2() {
+				if spec.V2Metrics[i].Name == name {
+					recv.SetField(i, C2[i][int(h>>8)%len(C2[i])])
+				}
+			} else if spec.V3Metrics[i].Name == name {
+				recv.SetField(i, C3[i][int(h>>8)%len(C3[i])])
+			}
+		}
+	}
+}
+
+// Scribble overwrites Ver and every exported metric field of a constructor result with values drawn
+// from h: valid ones, the unknown/invalid constant, out-of-range integers.
+func Scribble(recv Obj, h uint32) {
+	if !recv.Kind.V2() {
+		recv.SetVer(int(h % 5))
+	}
+	for i, n := 0, recv.NFields(); i < n; i++ {
+		h = h*1664525 + 1013904223
+		var valid []int
+		var unk int
+		if recv.Kind.V2() {
+			valid, unk = C2[i], U2[i]
+		} else {
+			valid, unk = C3[i], U3[i]
+		}
+		switch (h >> 8) % 8 {
+		case 0:
+			recv.SetField(i, unk)
+		case 1:
+			recv.SetField(i, int(h>>12)%300-20)
+		case 2: // left as the constructor set it
+		default:
+			recv.SetField(i, valid[int(h>>12)%len(valid)])
+		}
+	}
+}
 
 // DecodeMode decodes s with a receiver obtained as the mode says.  The
 // receiver is returned as well (the object a failed decode leaves behind).
@@ -163,6 +273,11 @@ func DecodeMode(k Kind, s string, mode int) (o Obj, recv Obj, err error, pan *Pa
 	switch mode {
 	case RecvNil:
 		recv = NilObj(k)
+	case RecvNilAfterFail:
+		recv = NilObj(k)
+		if _, _, p := DecodeOn(recv, rejectedPrelude(k, strHash(s))); p != nil {
+			return Obj{Kind: k}, recv, nil, p
+		}
 	case RecvQueried:
 		recv = New(k)
 		x := recv.Observe()
@@ -178,6 +293,70 @@ func DecodeMode(k Kind, s string, mode int) (o Obj, recv Obj, err error, pan *Pa
 		recv.IsEmpty()
 	case RecvCopy:
 		recv = CopyOf(New(k))
+	case RecvEmbedded:
+		h := strHash(s+"#emb") >> 5
+		recv = Obj{Kind: k}
+		switch k {
+		case K3B:
+			if h&1 == 0 {
+				recv.B3 = m3.NewTemporal().Base
+			} else if h&2 == 0 {
+				recv.B3 = m3.NewEnvironmental().Base
+			} else {
+				recv.B3 = m3.NewEnvironmental().BaseMetrics()
+			}
+		case K3T:
+			if h&1 == 0 {
+				recv.T3 = m3.NewEnvironmental().Temporal
+			} else {
+				recv.T3 = m3.NewEnvironmental().TemporalMetrics()
+			}
+		case K2B:
+			if h&1 == 0 {
+				recv.B2 = m2.NewTemporal().Base
+			} else if h&2 == 0 {
+				recv.B2 = m2.NewEnvironmental().Base
+			} else {
+				recv.B2 = m2.NewEnvironmental().BaseMetrics()
+			}
+		case K2T:
+			if h&1 == 0 {
+				recv.T2 = m2.NewEnvironmental().Temporal
+			} else {
+				recv.T2 = m2.NewEnvironmental().TemporalMetrics()
+			}
+		default:
+			recv = New(k)
+		}
+	case RecvReplugged:
+		h := strHash(s+"#plug") >> 5
+		recv = New(k)
+		switch k {
+		case K3T:
+			recv.T3.Base = m3.NewBase()
+		case K3E:
+			if h&1 == 0 {
+				recv.E3.Temporal = m3.NewTemporal()
+			}
+			if h&1 == 1 || h&2 == 0 {
+				recv.E3.Temporal.Base = m3.NewBase()
+			}
+		case K2T:
+			recv.T2.Base = m2.NewBase()
+		case K2E:
+			if h&1 == 0 {
+				recv.E2.Temporal = m2.NewTemporal()
+			}
+			if h&1 == 1 || h&2 == 0 {
+				recv.E2.Temporal.Base = m2.NewBase()
+			}
+		}
+	case RecvPreset:
+		recv = New(k)
+		preset(recv, s)
+	case RecvScribbled:
+		recv = New(k)
+		Scribble(recv, strHash(s+"#scribble"))
 	default:
 		recv = New(k)
 	}
@@ -301,17 +480,21 @@ func Assemble(k Kind, s string, how int) (o Obj, ok bool, pan *Panic) {
 // mode): half of the strings get a fresh constructor result, a quarter a nil receiver, a quarter a
 // constructor result that was queried before Decode.
 func AutoMode(s string) int {
-	h := uint32(2166136261)
-	for i := 0; i < len(s); i++ {
-		h = (h ^ uint32(s[i])) * 16777619
-	}
-	switch (h >> 7) % 8 {
-	case 2, 3:
+	switch (strHash(s) >> 7) % 16 {
+	case 4, 5, 6:
 		return RecvNil
-	case 4, 5:
+	case 7, 8:
 		return RecvQueried
-	case 6:
+	case 9, 10:
 		return RecvCopy
+	case 11:
+		return RecvEmbedded
+	case 12:
+		return RecvReplugged
+	case 13, 14:
+		return RecvPreset
+	case 15:
+		return RecvNilAfterFail
 	}
 	return RecvFresh
 }
